@@ -5,7 +5,7 @@ from typing import Any, Dict, List, Optional, Tuple
 
 from ..facts import AnalysisError, FuncInfo
 from ..report import Check
-from ..symexec import Closure, closure_paths, SymExec, freeze, show, Path, Event
+from ..symexec import Closure, closure_paths, SymExec, freeze, show, Path, Event, is_const
 from .. import opmodel as om
 from .. import functab
 from .. import ctx as C
@@ -24,6 +24,37 @@ def number_token(lm) -> str:
     if len(cands) != 1:
         raise AnalysisError('lexer: expected exactly one numeral rule, found %r' % cands)
     return cands[0]
+
+
+def strip_separators(arg, raw):
+    """`raw.replace(c, '')...` with single characters c that cannot be part of a numeral: (raw, {c, ...}); otherwise (arg, set())."""
+    seps = set()
+    cur = arg
+    while isinstance(cur, tuple) and cur[:1] == ('call',) and len(cur) >= 5 and isinstance(cur[2], tuple) and cur[2][:1] == ('attr',) \
+            and cur[2][2] == 'replace' and not cur[4] and len(cur[3]) == 2 and all(is_const(a) for a in cur[3]) \
+            and isinstance(cur[3][0][1], str) and len(cur[3][0][1]) == 1 and cur[3][1][1] == '' \
+            and cur[3][0][1] not in '0123456789.+-eEnNiIfFaA':
+        seps.add(cur[3][0][1])
+        cur = cur[2][1]
+    if cur == raw:
+        return raw, seps
+    return arg, set()
+
+
+def numeral_separators(F, rm) -> set:
+    """Characters the numeral rule removes from the matched text before it builds the Decimal, on every converting path."""
+    if rm.rule.func is None:
+        return set()
+    tparam = ('param', rm.rule.func.args.args[0].arg)
+    raw = ('attr', tparam, 'value')
+    out = None
+    for p in rm.paths:
+        for e in p.events:
+            if e.kind == 'store_attr' and freeze(e.obj) == tparam and e.attr == 'value':
+                arg = N.is_decimal_ctor(F, e.value)
+                seps = strip_separators(arg, raw)[1] if arg is not None else set()
+                out = seps if out is None else (out & seps)
+    return out or set()
 
 
 def literal_carries_numeral(chk: Check, R1: str, NUM: str, where: str) -> None:
@@ -89,7 +120,7 @@ def check(chk: Check) -> None:
                 arg = N.is_decimal_ctor(F, e.value)
                 if arg is None:
                     problems.append('`%s` does not build a Decimal' % e.text())
-                elif arg != raw:
+                elif strip_separators(arg, raw)[0] != raw:
                     fs = N.float_sources(arg)
                     problems.append('`%s` converts %s instead of the matched text itself%s' % (
                         e.text(), show(arg), ' (through %s: binary rounding error enters every literal)' % ', '.join(fs) if fs else ''))
